@@ -484,6 +484,7 @@ def items(tier, rng):
             out.append({"name": "fw_%d_%s_%s" % (n, "".join("%d%d" % a for a in arcs), directed), "harness": "h_edges",
                         "params": {"algo": "floyd_warshall", "n": n, "arcs": arcs, "src": 0, "target": None, "directed": directed}})
     # grids
+    ngrid = 0
     shapes = [(3, 3), (2, 3)] if q else [(3, 3), (2, 3), (3, 4)]
     for (R, C) in shapes:
         layouts = list(itertools.product((0, 1, 2), repeat=R * C - 1))
@@ -501,7 +502,9 @@ def items(tier, rng):
                 for goal in goals:
                     if cells[goal[0]][goal[1]] == 1:
                         continue
-                    hs = ["auto"] if q else (["auto", "euclidean", "chebyshev"] + (["manhattan"] if directions == 4 else []))
+                    allh = ["auto", "euclidean", "chebyshev", "octile"] + (["manhattan"] if directions == 4 else [])  # the admissible ones
+                    ngrid += 1
+                    hs = [allh[ngrid % len(allh)]] if q else allh
                     for hname in hs:
                         out.append({"name": "grid%dx%d" % (R, C), "harness": "h_grid",
                                     "params": {"rows": R, "cols": C, "cells": cells, "goal": goal, "directions": directions,
